@@ -147,6 +147,31 @@ def history(h: Harness, spec, rng):
                   "opo": lambda: OnePlusOne(problem, EvaluationBudget(8), rep, random=r)}[algo]
             guard(f"search[{algo}]", f"{algo}.search()", lambda: mk().search())
             h.count("searches")
+    # "the set of programs creatable from a grammar neither shrinks nor grows": after the history (deciders of several
+    # depth limits were used on this grammar object) creation is still, draw by draw, what the model creates from the
+    # declarations -- for limits other than the ones used last, too
+    degenerate = any(g.distanceToTerminal[s] >= 1000000 for s in g.all_nodes)
+    for dd in (0, 3, 1, 2):
+        for kind in ("grow", "full", "pigrow"):
+            draws = [rng.randrange(0, 1000) for _ in range(96)]
+            res, _, _ = synth.create(b, kind, mind + dd, draws)
+            if res is not None and not (degenerate and res[0] == "err"):
+                h.agree("creatable-set-after-history", ["create", line_spec, [kind, mind + dd], draws], res, nontrivial=True)
+            # the same draws on a grammar extracted afresh from the same classes: the used grammar must create the same
+            used = b.grammar
+            try:
+                with warnings.catch_warnings():
+                    warnings.simplefilter("ignore")
+                    b.grammar = extract_grammar(b.considered(), b.start, spec.expansion)
+                fresh_res, _, _ = synth.create(b, kind, mind + dd, draws)
+            except Exception:  # noqa: BLE001
+                fresh_res = None
+            finally:
+                b.grammar = used
+            if res is not None and fresh_res is not None and res != fresh_res:
+                h.fail("history", "creatable-set-changed",
+                       f"after the history, {kind} creation at max depth {mind + dd} with draws {draws[:8]}... gives {sx(res)[:120]} on the used grammar "
+                       f"and {sx(fresh_res)[:120]} on a grammar freshly extracted from the same classes", [sx(line_spec), kind, mind + dd, draws])
     # after the whole history: the grammar is what the model derives from the class declarations
     alts, dist = c05.observe(b, g)
     obs = [["error", False], ["alts", alts], ["dist", dist], ["rec", c05.syms(b, g.recursive_prods)],
@@ -181,6 +206,45 @@ def retry_model(h: Harness):
             h.agree("create_node retry loop", ["retry", [[0, [1, 2, 3]]], 0, [1], [c0, c1]], [chosen, alts_after])
 
 
+def unknown_symbol_history(h: Harness, rng):
+    """a refinement that sometimes asks the synthesiser for a class the grammar was never told about: those operations
+    fail (GeneticEngineError); failing or not, no operation may change the grammar (productions, depths, recursive set,
+    weights, symbols)"""
+    import ctxgrammar
+    from linear import GE, safe
+    g = ctxgrammar.unknown_symbol_grammar()
+
+    def snap():
+        return {"alts": sorted((k.__name__, [c.__name__ for c in v]) for k, v in g.alternatives.items()),
+                "dist": sorted((getattr(k, "__name__", str(k)), v) for k, v in g.distanceToTerminal.items()),
+                "rec": sorted(getattr(k, "__name__", str(k)) for k in g.recursive_prods),
+                "nodes": sorted(getattr(k, "__name__", str(k)) for k in g.all_nodes),
+                "weights": sorted((getattr(k, "__name__", str(k)), w) for k, w in g.get_weights().items())}
+    first = snap()
+    r = NativeRandomSource(rng.randrange(10**6))
+    ok = failed = 0
+    for k in range(h.n(60, 300)):
+        d = rng.choice([2, 3, 4])
+        kind = rng.choice(["grow", "full", "pigrow"])
+        if k % 3 == 2:
+            rep = GE(g, synth.make_decider(kind, d, r, g), gene_length=32)
+            st, _ = safe(lambda: rep.genotype_to_phenotype(rep.create_genotype(r)))
+        else:
+            st, _ = safe(lambda: TreeBasedRepresentation(g, synth.make_decider(kind, d, r, g)).create_genotype(r))
+        ok += st == "ok"
+        failed += st == "err"
+        now = snap()
+        if now != first:
+            diff = next(key for key in first if first[key] != now[key])
+            h.fail("create_node", "grammar-modified",
+                   f"operation #{k} ({'GE mapping' if k % 3 == 2 else 'tree creation'}, {kind}, depth {d}; {st}) on a grammar whose refinement asks for an "
+                   f"unregistered class changed Grammar.{diff}: {first[diff]} -> {now[diff]}", ["unknown-symbol", k])
+            break
+    h.count("unknown-symbol-history:ok-operations", ok)
+    h.count("unknown-symbol-history:failing-operations", failed)
+    h.seen("unknown-symbol-history", nontrivial=failed > 0 and ok > 0)
+
+
 def corpus():
     """fixed witnesses: a failing production that is the ONLY alternative of a nested abstract symbol / one of two /
     sits below a list, with the failure certain (list always empty) or possible"""
@@ -207,6 +271,7 @@ def corpus():
 def run(h: Harness):
     rng = h.rng
     retry_model(h)
+    unknown_symbol_history(h, rng)
     for spec in corpus():
         for _ in range(3):
             history(h, spec, rng)
